@@ -433,6 +433,9 @@ def run(ctx, rep):
     AR.check_mapping_wiring(fx, rep, "C01.api")
     import parser_rules as PRM
     PRM.check_parser_premises(fx, rep, "C01.P2")
+    # the class block a frame is remapped in is found by the exact class lookup (both implementations)
+    import lookup_rules as LR_
+    LR_.check_class_lookup(fx, rep, "C01.L")
     run_controls(ctx, rep)
 
 
